@@ -5,6 +5,7 @@ import (
 	"fmt"
 	"net"
 	"net/http"
+	"strings"
 	"time"
 
 	"github.com/bokysan/socketace/v2/internal/simrt"
@@ -16,7 +17,7 @@ import (
 func init() { Scenarios["C15"] = scenarioC15 }
 
 var c15Endpoints = []string{"tcp", "unix", "tcp+tls", "ws", "wss", "udp", "dns+udp", "dns+tcp"}
-var c15Points = []string{"connect", "partial-line", "between", "tls-hello", "after-upgrade"}
+var c15Points = []string{"connect", "partial-line", "between", "tls-hello", "starttls-hello", "after-upgrade"}
 var c15Behaviours = []string{"silent", "drip", "garbage"}
 
 const announce = "X-SOCKETACE / HTTP/1.1\r\nAccepts-Protocol-Version: v2.0.0\r\nUser-Agent: socketace/staller\r\n\r\n"
@@ -32,6 +33,9 @@ func C15Cells() [][3]string {
 			}
 			if pt == "connect" && ep == "udp" {
 				continue // a KCP peer exists only once it has sent a packet
+			}
+			if pt == "starttls-hello" && (ep == "tcp+tls" || ep == "wss") {
+				continue // StartTLS is only offered on carriers that are not encrypted already
 			}
 			for _, bh := range c15Behaviours {
 				if bh != "silent" && (pt == "connect" || pt == "after-upgrade") {
@@ -136,6 +140,15 @@ func startStaller(r *Run, w *World, id int, ep, point, behaviour string) {
 			buf := make([]byte, 4096)
 			conn.Read(buf)
 			misbehave(conn, behaviour, []byte(upgradeReq[:20]))
+		case "starttls-hello":
+			// asks for the StartTLS upgrade the server offers, gets its 101, and stalls inside the TLS hello
+			conn.Write([]byte(announce))
+			buf := make([]byte, 4096)
+			conn.Read(buf)
+			conn.Write([]byte(strings.Replace(upgradeReq, "User-Agent:", "Security: StartTLS\r\nUser-Agent:", 1)))
+			conn.Read(buf)
+			conn.Write([]byte{0x16, 0x03, 0x01, 0x02, 0x00, 0x01, 0x00, 0x01, 0xfc, 0x03, 0x03})
+			misbehave(conn, behaviour, []byte{0x11, 0x22, 0x33, 0x44, 0x55, 0x66, 0x77, 0x88, 0x99, 0xaa, 0xbb, 0xcc})
 		case "after-upgrade":
 			conn.Write([]byte(announce))
 			buf := make([]byte, 4096)
@@ -187,7 +200,7 @@ func scenarioC15(r *Run) {
 	if CarrierEncrypted(ep) {
 		cfg.ServerCert = "good"
 		cfg.ClientInsecure = true
-	} else if c.Chance(1, 3, "starttls") {
+	} else if point == "starttls-hello" || c.Chance(1, 3, "starttls") {
 		cfg.ServerCert = "good"
 		cfg.ClientInsecure = true
 	}
